@@ -232,7 +232,8 @@ def run_generated(prop, run_seed):
     log = hashlib.sha256()
     log.update(jdump(["seed", run_seed, cfg]).encode())
     st = prop.start(cfg)
-    budget = min(int(cfg.get("steps", prop.max_steps)), prop.max_steps)
+    cap = prop.max_steps * (3 if cfg.get("deep_bounds") else 1)
+    budget = min(int(cfg.get("steps", prop.max_steps)), cap)
     st = _loop(prop, cfg, st, rng, None, res, log, budget, True)
     _finish(prop, st, res, log)
     seams.set_flag(False)
